@@ -81,6 +81,7 @@ func runFaultHistory(c HistCfg, plan *faultPlan) (*core.Trace, []simdisk.Op) {
 
 // CheckC08: I/O failures are contained.
 func CheckC08(r *core.Run) {
+	defer exploreWriter(r)()
 	r.Rule = "for base histories (bounded/unbounded, growing past the mapped size, preallocated) every selected I/O call index x failure mode (error before effect, short write, failing sync/truncate/size/mmap) x burst length is injected into a re-run of the same history; every API call runs under recover()+watchdog; TxTrace.tla judges: failing operations return errors only when a failure was injected into that transaction (or the file is full), aborted commits leave the projection of Begin, reads keep returning the committed model, CrashSafe holds on the real I/O (incl. the state of a failed attempt whose header may have reached the disk), and a plain reopen at the end shows an allowed state; distinct = (history, call index, mode, burst)"
 	r.Assume("a failed sync leaves the written data in the volatile image (page cache) and not in the durable image")
 	nb := r.Pick(6, 16)
@@ -169,6 +170,7 @@ func CheckC08(r *core.Run) {
 
 // judgeFaults validates fault traces; the signatures carry the situation (known findings).
 func judgeFaults(r *core.Run, traces []*core.Trace) {
+	judgeWriter(r, traces, "C01", "C03")
 	judgeTx(r, traces, reportOpts{Mine: []string{"C01", "C03", "C07"}, Context: faultContext})
 }
 
